@@ -37,6 +37,8 @@ pub struct Profile {
     pub tree_ops: bool,
     /// `clear()` alone (C08: payloads are dropped when the arena is cleared)
     pub clear_op: bool,
+    /// serde round trip as an operation (engine built with `deser`)
+    pub round_trip: bool,
 }
 
 #[derive(Clone)]
@@ -443,6 +445,18 @@ pub fn explore(cfg: &RunCfg, known: &Known) -> Report {
                 })
                 .collect()
         });
+        // par_iter judge (C17/C18): sequential, on this (non-worker) thread
+        let mut par_fails: Vec<(u32, Failure)> = Vec::new();
+        if target & (step::C17 | step::C18) != 0 {
+            for (idx, st) in &newstates {
+                for f in judges::c17_par(st) {
+                    par_fails.push((*idx, f));
+                }
+            }
+        }
+        for (idx, f) in par_fails {
+            record(f, idx, None, &recs, &mut rep, &mut viol, &mut viol_order);
+        }
         let mut next_frontier: Vec<(u32, State)> = Vec::with_capacity(newstates.len());
         let mut level_obs_digest = 0u64;
         if cfg.judge.rich_digest {
